@@ -21,7 +21,9 @@ RULE = ('random rasters up to 6x6 (zone alphabets as C02: negative / fractional 
         'of each axis (1..3 parts per axis for stats, up to single-cell chunks on tiny rasters for crosstab) and values cut '
         'INDEPENDENTLY (same / different composition); stats with random subsets of the seven statistics and zone_ids lists that '
         'contain at least one existing zone; crosstab 2-D (count / percentage, zone_ids / cat_ids selections) and 3-D count; '
-        'schedulers synchronous and threads. Hard cases: a zone split over several blocks, a zone absent from some blocks, a '
+        'schedulers synchronous and threads; plus a "computed together" stream: 2-3 lazy stats / crosstab tables on the same '
+        'raster under different selections or on different rasters of the same shape, materialised by ONE dask.compute and each '
+        'compared with its NumPy table. Hard cases: a zone split over several blocks, a zone absent from some blocks, a '
         'selected zone with no valid cell at all. The thorough tier also enumerates all 16 chunkings of 3x3 rasters for '
         'crosstab. Non-trivial: >= 2 blocks and a zone with valid cells in >= 2 blocks or absent from a block.')
 TRUSTED = [
@@ -61,6 +63,7 @@ LEVEL_NOTE = ('Trusted: Coq kernel, extraction, OCaml driver, harness; Dask and 
 K_EMPTY = 'dask-empty-zone-sum-count-zero'
 K_RECHUNK = 'dask-crosstab-2d-chunks-differ'
 K_NINF = 'neg-inf-zone-shifts-slices'
+K_SQ = c02.K_SQ
 K_CAT = c04.K_CAT
 K_ZONE = c04.K_ZONE
 STATS = c02.ALL_STATS
@@ -87,8 +90,7 @@ def all_compositions(n):
 
 def gen_case(rng, i, kind):
     rows, cols = c02.shape_for(rng, True)
-    zd = c02.ZD[i % 4]
-    vd = c02.VD[(i // 4) % 4]
+    zd, vd = c02.pick_dtypes(i)
     zones, alphabet = c02.gen_zones(rng, rows, cols, zd, p_nan=0.06, p_pinf=0.03, p_ninf=0.03)
     present = c02.finite_zone_ids(zones)
     if not present:
@@ -118,8 +120,7 @@ def gen_case(rng, i, kind):
         if rng.random() < 0.3:                      # hard case: a zone with no valid cell
             z0 = rng.choice(present)
             fill = NAN if (vd.startswith('float') and (nodata is None or rng.random() < 0.5)) else nodata
-            if fill is not None and (not isinstance(fill, float) or isfin(fill) or vd.startswith('float')) and \
-                    (not isfin(float(fill)) or float(fill) == int(float(fill))):
+            if fill is not None and c02.fits(fill, vd):
                 for r in range(rows):
                     for c in range(cols):
                         if zones[r][c] == z0:
@@ -185,6 +186,92 @@ def eval_case(case):
     return res
 
 
+def stats_lazy(case, backend):
+    import dask.array as da
+    from xrspatial.zonal import stats
+    z = np_array(case['zones'], case['zdtype'])
+    v = np_array(case['values'], case['vdtype'])
+    if backend == 'dask':
+        za = xr.DataArray(da.from_array(z, chunks=chunk_tuple(case['zchunks'])), dims=['y', 'x'])
+        va = xr.DataArray(da.from_array(v, chunks=chunk_tuple(case['vchunks'])), dims=['y', 'x'])
+    else:
+        za, va = xr.DataArray(z, dims=['y', 'x']), xr.DataArray(v, dims=['y', 'x'])
+    return stats(zones=za, values=va, zone_ids=case['zone_ids'], stats_funcs=list(case['stats']), nodata_values=case['nodata'])
+
+
+def canon_stats(df):
+    cols = list(df.columns)
+    return dict(cols=cols, rows=[dict((c, float(df[c].iloc[i])) for c in cols) for i in range(len(df))])
+
+
+def eval_together(group):
+    """several lazy Dask tables (different rasters and/or selections) materialised by ONE dask.compute; returns one
+    dict(numpy=..., dask=...) per variant"""
+    import warnings
+    warnings.filterwarnings('ignore')
+    import dask
+    out = [dict() for _ in group['variants']]
+    lazies = []
+    for i, case in enumerate(group['variants']):
+        sub = dict(case, chunks=[tuple(case['zchunks'][0]), tuple(case['zchunks'][1])],
+                   vchunks=[tuple(case['vchunks'][0]), tuple(case['vchunks'][1])])
+        try:
+            if case['fn'] == 'stats':
+                out[i]['numpy'] = canon_stats(stats_lazy(case, 'numpy'))
+            else:
+                nsub = dict(sub, backend='numpy')
+                nsub.pop('vchunks')
+                out[i]['numpy'] = c04.run_impl(nsub)
+        except Exception as e:      # noqa
+            out[i]['numpy'] = ('raised', '%s: %s' % (type(e).__name__, str(e)[:200]))
+        try:
+            lazies.append(stats_lazy(case, 'dask') if case['fn'] == 'stats' else c04.call_impl(dict(sub, backend='dask')))
+        except Exception as e:      # noqa
+            lazies.append(None)
+            out[i]['dask'] = ('raised', '%s: %s' % (type(e).__name__, str(e)[:200]))
+    idx = [i for i, l in enumerate(lazies) if l is not None]
+    try:
+        with dask.config.set(scheduler=group['scheduler']):
+            dfs = dask.compute(*[lazies[i] for i in idx])
+        for i, df in zip(idx, dfs):
+            out[i]['dask'] = canon_stats(df) if group['variants'][i]['fn'] == 'stats' else c04.canon_df(df)
+    except Exception as e:      # noqa
+        for i in idx:
+            out[i]['dask'] = ('raised', '%s: %s' % (type(e).__name__, str(e)[:200]))
+    return out
+
+
+def gen_together(rng, i):
+    """2-3 lazy results to be computed together: the same raster under different selections, or different rasters of the
+    same shape and chunking (so that per-block task names / keys of the calls are as similar as they can be)"""
+    kind = 'xtab2' if i % 3 != 2 else 'stats'
+    base = gen_case(rng, i, kind)
+    if kind == 'stats':
+        base['zchunks'] = [composition(rng, len(base['zones']), 2), composition(rng, len(base['zones'][0]), 2)]
+    base['vchunks'] = base['zchunks']
+    rows, cols = len(base['zones']), len(base['zones'][0])
+    variants = [base]
+    for k in range(rng.randint(1, 2)):
+        v = dict(base)
+        present = c02.finite_zone_ids(base['zones'])
+        mode = rng.random()
+        if mode < 0.5:                       # another raster, same shape / chunking / call arguments
+            other = gen_case(rng, i + 7 * (k + 1), kind)
+            v['zones'], _ = c02.gen_zones(rng, rows, cols, base['zdtype'], alphabet=present or [1.0], p_ninf=0.0)
+            v['values'] = c02.gen_values(rng, rows, cols, base['vdtype'], small=(kind == 'xtab2'))
+        else:                                # the same raster, another selection
+            v['zone_ids'] = c04.maybe_int(rng, [rng.choice(present)] + (c04.sub_list(rng, present, [11.0], False) if rng.random() < 0.5 else []))
+            if kind == 'xtab2':
+                cats = sorted({x for row in base['values'] for x in row if isfin(x)})
+                v['cat_ids'] = None if (rng.random() < 0.4 or not cats) else c04.maybe_int(rng, c04.sub_list(rng, cats, [7.0], False))
+        variants.append(v)
+    for v in variants:                       # Dask needs at least one requested zone to exist
+        pres = c02.finite_zone_ids(v['zones'])
+        if v['zone_ids'] is not None and not any(float(z) in pres for z in v['zone_ids']):
+            v['zone_ids'] = None
+    return dict(fn='together', variants=variants, scheduler=base['scheduler'])
+
+
 # --------------------------------------------------------------------------- classes of known (fixed) defects
 def empty_selected_zone(case):
     nd = None if case['nodata'] is None else float(case['nodata'])
@@ -198,6 +285,8 @@ def key_for(case, what=None):
     if case['fn'] == 'stats':
         if what in ('sum', 'count') and empty_selected_zone(case):
             return K_EMPTY
+        if what in ('std', 'var') and c02.sumsq_overflow_class(dict(case, backend='dask'), what):
+            return K_SQ
         return None
     if case['fn'] == 'xtab2' and chunk_tuple(case['zchunks']) != chunk_tuple(case['vchunks']):
         return K_RECHUNK
@@ -370,11 +459,30 @@ def gen_all(ctx):
     return cases
 
 
-def run(ctx, cases=None):
+def run_together(ctx, groups, pool):
+    results = pool.map(eval_together, groups, chunksize=1)
+    for group, res in zip(groups, results):
+        ctx.case(group, nontrivial=True)
+        ctx.count('together/%s/%d-lazy-results' % (group['variants'][0]['fn'], len(group['variants'])))
+        for i, (case, r) in enumerate(zip(group['variants'], res)):
+            n0 = len(ctx.violations)
+            oracle(ctx, case, r)
+            for v in ctx.violations[n0:]:
+                v['what'] = '[variant %d of %d lazy Dask results materialised by ONE dask.compute] %s' % (
+                    i + 1, len(group['variants']), v['what'])
+                v['replay'] = dict(group, failing_variant=i)
+
+
+def run(ctx, cases=None, groups=None):
+    fresh = cases is None
     cases = cases if cases is not None else gen_all(ctx)
+    if groups is None:
+        groups = [gen_together(ctx.rng, i) for i in range((45 if ctx.quick() else 500) if fresh else 0)]
     workers = int(os.environ.get('VERIF_POOL', '6'))
     with mp.get_context('fork').Pool(min(6, workers)) as pool:
         results = pool.map(eval_case, cases, chunksize=2)
+        if groups:
+            run_together(ctx, groups, pool)
     pending = []
     for case, res in zip(cases, results):
         ctx.case(case, nontrivial=nontrivial(case))
@@ -407,6 +515,17 @@ def search(ctx):
 
 
 def replay_case(ctx, case):
+    if case.get('fn') == 'together':
+        group = dict(case)
+        group.pop('failing_variant', None)
+        group['variants'] = [dict(v) for v in group['variants']]
+        for v in group['variants']:
+            for k in ('zones', 'values', 'zone_ids', 'cat_ids', 'nodata'):
+                if k in v:
+                    v[k] = unjson(v[k])
+        with mp.get_context('fork').Pool(1) as pool:
+            run_together(ctx, [group], pool)
+        return
     case = dict(case)
     for k in ('zones', 'values', 'layers', 'labels', 'zone_ids', 'cat_ids', 'nodata'):
         if k in case:
